@@ -18,8 +18,8 @@ AttrNone == 0  AttrBlack == 1  AttrURL == 2  AttrStyle == 3  AttrIndirect == 4
 (*   SchemeMatch "contains": decoded value contains the scheme             *)
 (*               ("prefix" upstream)                                       *)
 (***************************************************************************)
-UpperMode   == "unicode"
-SchemeMatch == "contains"
+UpperMode   == EnvOr("VERIF_UPPER", "unicode")
+SchemeMatch == EnvOr("VERIF_SCHEME", "contains")
 
 UpName(w) == UpKey(DropByte(w, 0), UpperMode)
 
